@@ -6,7 +6,7 @@ oracle (independent of the model): the round-trip laws of the property on the im
 """
 import os, signal, sys
 import gen
-from gallina import lit, gcat, gopt, glist, gtree, gtoken, gbool
+from gallina import lit, gcat, gopt, glist, gbool
 from depccg.cat import Category
 from depccg.tree import Tree
 from depccg.types import Token
@@ -122,7 +122,58 @@ def triples(t, acc):
     return acc
 
 
-def guess_table(trees):
+NAMED = {'word': 'k_word', 'lemma': 'k_lemma', 'pos': 'k_pos', 'entity': 'k_entity', 'chunk': 'k_chunk', 'tag1': 'k_tag1', 'tag2': 'k_tag2',
+         'lex': 's_lex', '<lex>': 's_lexsym', '<un>': 's_unsym', 'POS': 's_POS'}
+NAMED_CHECK = ' && '.join(f'text_eqb {v} {lit(k)}' for k, v in NAMED.items())
+
+
+def glit(s):
+    """a text; the few texts that have a name in Tree.v/Auto.v are written by name (the names are checked against the literals by one case)"""
+    return NAMED.get(s) or lit(s)
+
+
+class Interner:
+    """per-case sharing of category terms: each distinct category is bound once by a let"""
+    def __init__(self):
+        self.names, self.lets_ = {}, []
+
+    def cat(self, c):
+        k = str(c) + '\0' + repr(type(c))
+        n = self.names.get(k)
+        if n is None:
+            n = f'c{len(self.names)}_'
+            self.names[k] = n
+            self.lets_.append(f'let {n} : cat := {gcat(c)} in')
+        return n
+
+    def token(self, tok):
+        return '[' + ';'.join(f'({glit(k)},{lit(v)})' for k, v in tok.items()) + ']'
+
+    def tree(self, t):
+        if t.is_leaf:
+            return f'(Leaf {self.cat(t.cat)} {self.token(t.token)} {glit(t.op_string)} {glit(t.op_symbol)})'
+        if t.is_unary:
+            return f'(Un {self.cat(t.cat)} {glit(t.op_string)} {glit(t.op_symbol)} {self.tree(t.child)})'
+        return (f'(Bin {self.cat(t.cat)} {glit(t.op_string)} {glit(t.op_symbol)} {gbool(t.head_is_left)} '
+                f'{self.tree(t.left_child)} {self.tree(t.right_child)})')
+
+    def toks(self, r):
+        """the reader's token list; `None` = exactly the tokens of the leaves of the tree, in order (checked here, expanded in Coq)"""
+        if len(r.tokens) == len(r.tree.leaves) and all(a is b.token or (dict(a) == dict(b.token) and list(a) == list(b.token)) for a, b in zip(r.tokens, r.tree.leaves)):
+            return 'None'
+        return f'(Some {glist(r.tokens, self.token)})'
+
+    def res(self, r):
+        return f'({lit(r.name)},{self.toks(r)},{self.tree(r.tree)})'
+
+    def guess_table(self, trees):
+        return guess_table(trees, self.cat)
+
+    def wrap(self, body):
+        return '(' + ' '.join(self.lets_) + ' ' + body + ')'
+
+
+def guess_table(trees, gcat=gcat):
     """labels obtained by calling guess_combinator_by_triplet directly (not through the reader)"""
     rules = R.BINARY_RULES[get_global_language()]
     seen, out = set(), []
@@ -137,15 +188,6 @@ def guess_table(trees):
     return '[' + ';'.join(out) + ']'
 
 
-def gtoks(r):
-    """the reader's token list; `None` = exactly the tokens of the leaves of the tree, in order (checked here, expanded in Coq)"""
-    if [dict(x) for x in r.tokens] == [dict(l.token) for l in r.tree.leaves] and all(list(a) == list(b.token) for a, b in zip(r.tokens, r.tree.leaves)):
-        return 'None'
-    return f'(Some {glist(r.tokens, gtoken)})'
-
-
-def gres(r):
-    return f'({lit(r.name)},{gtoks(r)},{gtree(r.tree)})'
 
 
 def same_derivation(t, r, path='root'):
@@ -310,7 +352,8 @@ def run(ctx):
         ctx.count(f'leaves:{len(t.leaves)}')
         dom = domain(t)
         ps = [('domain', f'ChkDom t_ {gbool(wf_tree_py(t))}')]
-        lets = [f'let t_ : tree := {gtree(t)} in']
+        I = Interner()
+        lets = [f'let t_ : tree := {I.tree(t)} in']
         # --- printer
         try:
             line = auto_of(t)
@@ -326,7 +369,7 @@ def run(ctx):
             ctx.count('print:KeyError')
             if dom:
                 ctx.fail('unprintable', f'auto_of raises KeyError on a tree of the domain: {sig!r}', {'tree': repr(sig)})
-            finish_case(lets, ps, kind, sig)
+            finish_case(I, lets, ps, kind, sig)
             return
         lets.append(f'let ln_ : text := {lit(line)} in')
         ps.append(('print', 'ChkPrint t_ (Some ln_)'))
@@ -342,21 +385,21 @@ def run(ctx):
         ctx.count(f'read:{out}')
         files = f'[{lit("ID=1" + chr(10))}; ln_ ++ [10]]'
         if out == 'ok' and len(res) == 1:
-            lets.append(f'let tb_ : gtab := {guess_table([r.tree for r in res])} in')
-            lets.append(f'let r_ : tree := {gtree(res[0].tree)} in')
-            ps.append(('read', f'ChkFile tb_ {files} (Some [({lit(res[0].name)},{gtoks(res[0])},r_)])'))
+            lets.append(f'let tb_ : gtab := {I.guess_table([r.tree for r in res])} in')
+            lets.append(f'let r_ : tree := {I.tree(res[0].tree)} in')
+            ps.append(('read', f'ChkFile tb_ {files} (Some [({lit(res[0].name)},{I.toks(res[0])},r_)])'))
         elif out == 'ok':
-            ps.append(('read', f'ChkFile {guess_table([r.tree for r in res])} {files} (Some {glist(res, gres)})'))
+            ps.append(('read', f'ChkFile {I.guess_table([r.tree for r in res])} {files} (Some {glist(res, I.res)})'))
         else:
             ps.append(('read', f'ChkFile [] {files} None'))
         if not dom:
             ctx.count('tree:outside domain')
-            finish_case(lets, ps, kind, line)
+            finish_case(I, lets, ps, kind, line)
             return
         # --- oracle: the property on the implementation's outputs
         if out != 'ok' or len(res) != 1:
             ctx.fail('unreadable', f'read_auto fails ({res}) on the line auto_of printed: {line!r}', {'auto': line})
-            finish_case(lets, ps, kind, line)
+            finish_case(I, lets, ps, kind, line)
             return
         r = res[0]
         m = same_derivation(t, r.tree)
@@ -371,16 +414,17 @@ def run(ctx):
         if line2 != line:
             ctx.fail('reprint', f'auto_of(read_auto(line)) = {line2!r} differs from line = {line!r}', {'auto': line, 'reprinted': line2})
         ps.append(('canon', 'ChkCanon tb_ t_ r_'))
-        finish_case(lets, ps, kind, line)
+        finish_case(I, lets, ps, kind, line)
         if len(ctx.samples) < 3 and not t.is_leaf:
             ctx.sample({'auto_of': line, 'conll_last_column': cols, 'read_back_tokens': [dict(k) for k in r.tokens]})
 
-    def finish_case(lets, ps, kind, what):
-        pre = ' '.join(lets)
-        add('(' + pre + ' ' + ' && '.join(f'({p})' for _, p in ps) + ')', 'tree', kind, what)
-        parts.append([(lab, '(' + pre + ' ' + p + ')') for lab, p in ps])
+    def finish_case(I, lets, ps, kind, what):
+        pre = ' '.join(lets)          # the category lets of I come first (I.wrap), then the tree/line/table lets
+        add(I.wrap(pre + ' ' + ' && '.join(f'({p})' for _, p in ps)), 'tree', kind, what)
+        parts.append([(lab, I.wrap(pre + ' ' + p)) for lab, p in ps])
 
-    n_trees = 450 if ctx.quick else 4500
+    add('(' + NAMED_CHECK + ')', 'names', 'the named text constants used by the serialiser equal their literals')
+    n_trees = 450 if ctx.quick else 3600
     for i in range(n_trees):
         kind = ('licensed', 'random', 'exotic')[i % 3]
         one_tree(make_tree(kind), kind)
@@ -405,13 +449,14 @@ def run(ctx):
         out, res = run_reader(tmp, content)
         ctx.count(f'malformed:{kind}:{out}')
         if out == 'ok':
-            tb = guess_table([r.tree for r in res])
-            add(f'ChkFile {tb} {glist(lines, lit)} (Some {glist(res, gres)})', 'file', kind, content)
+            I = Interner()
+            body = f'ChkFile {I.guess_table([r.tree for r in res])} {glist(lines, lit)} (Some {glist(res, I.res)})'
+            add(I.wrap(body), 'file', kind, content)
         else:
             add(f'ChkFile [] {glist(lines, lit)} None', 'file', kind, content, res)
 
     short = [l for l in printed if len(l) <= 420] or printed
-    n_mal = 500 if ctx.quick else 5000
+    n_mal = 500 if ctx.quick else 4000
     for i in range(n_mal):
         line = rng.choice(short)
         for _ in range(rng.choice([1, 1, 1, 2, 3])):
@@ -505,11 +550,12 @@ def replay(data):
             rc = 1
             continue
         again = auto_of(res[0].tree)
-        print(f'   read_auto ok; auto_of(read) == line: {again == line}; label complaint: {label_complaint(res[0].tree)}')
+        lab = label_complaint(res[0].tree)
+        frag_ok = ' '.join(d['fragments']) == line if 'fragments' in d else True
+        print(f'   read_auto ok; auto_of(read) == line: {again == line}; label complaint: {lab}; fragments join to the line: {frag_ok}')
         print(f'   tokens read: {[dict(t) for t in res[0].tokens]}')
-        if 'fragments' in d:
-            print(f"   ' '.join(fragments) == line: {' '.join(d['fragments']) == line}")
-        rc = 1
+        if again != line or lab or not frag_ok:
+            rc = 1
     for b in data.get('broken_obligations', []):
         print('broken obligation:', (b.get('name') if isinstance(b, dict) else b[0]))
     return rc
